@@ -4,7 +4,7 @@ from common import *
 import impl, l2, gens
 from props import c11
 
-THMS = ["C12_normal_to_simple", "C12_normal_shape", "C12_fmap_is_rename"]
+THMS = ["C12_normal_to_simple", "C12_normal_shape", "C12_fmap_is_rename", "C12_literal_dictionary_refuted", "C12_keyword_named_like_operation_refuted"]
 
 
 def is_node(d):
